@@ -163,7 +163,8 @@ theorem envBeq_symm (a b : EnvSpec) : a.beq b = b.beq a := by
 /-- reflexive: a spec compares LOWER_OR_EQUAL with itself -/
 theorem compare_refl (a : EnvSpec) : compare a a = .lowerOrEqual := by simp [compare, envBeq_refl]
 
-theorem sameClass_symm (p q : Os) : p.sameClass q = q.sameClass p := by cases p <;> cases q <;> rfl
+theorem sameClass_symm (p q : Os) : p.sameClass q = q.sameClass p := by
+  cases p <;> cases q <;> first | rfl | (simp only [Os.sameClass]; exact Bool.eq_iff_iff.mpr ⟨fun h => by simpa using (of_decide_eq_true (by simpa using h) : _ = _).symm, fun h => by simpa using (of_decide_eq_true (by simpa using h) : _ = _).symm⟩)
 
 theorem implClash_symm (a b : Option Impl) : implClash a b = implClash b a := by
   cases a <;> cases b <;> simp [implClash]
@@ -181,10 +182,23 @@ theorem platCompare_incompatible_symm (p q : Platform) :
   · simp only [ha, bne_self_eq_false, Bool.false_eq_true, if_false]
     by_cases hc : p.os.sameClass q.os = true
     · simp only [hc, Bool.not_true, Bool.false_eq_true, if_false]
+      have hno : ∀ x y : Option (Nat × Nat), (x = none ∨ y = none) →
+          (match x, y with
+            | some (a1, a2), some (b1, b2) => if a1 < b1 || (a1 == b1 && a2 ≤ b2) then EnvCompat.lowerOrEqual else .higher
+            | _, _ => if p.os = q.os then .lowerOrEqual else .incompatible) = .incompatible →
+          (match y, x with
+            | some (a1, a2), some (b1, b2) => if a1 < b1 || (a1 == b1 && a2 ≤ b2) then EnvCompat.lowerOrEqual else .higher
+            | _, _ => if q.os = p.os then .lowerOrEqual else .incompatible) = .incompatible := by
+        intro x y hxy h
+        have hne : ¬ p.os = q.os := by
+          intro e
+          cases x <;> cases y <;> simp [e] at h hxy
+        have hne' : ¬ q.os = p.os := fun e => hne e.symm
+        cases x <;> cases y <;> simp [hne'] at hxy ⊢
       cases hm : p.os.majorMinor? <;> cases hn : q.os.majorMinor? <;> intro h
-      · cases h
-      · cases h
-      · cases h
+      · exact hno none none (Or.inl rfl) h
+      · rename_i v; exact hno none (some v) (Or.inl rfl) h
+      · rename_i v; exact hno (some v) none (Or.inr rfl) h
       · simp only at h
         split at h <;> cases h
     · simp [hc]
@@ -234,9 +248,9 @@ theorem compare_not_higher_both (a b : EnvSpec) : ¬ (compare a b = .higher ∧ 
           by_cases hc : p.os.sameClass q.os = true
           · simp only [hc, Bool.not_true, Bool.false_eq_true, if_false] at h1 h2
             cases hm : p.os.majorMinor? <;> cases hn : q.os.majorMinor? <;> rw [hm, hn] at h1 h2
-            · cases h1
-            · cases h1
-            · cases h1
+            · simp only at h1; split at h1 <;> cases h1
+            · simp only at h1; split at h1 <;> cases h1
+            · simp only at h1; split at h1 <;> cases h1
             · rename_i x y
               obtain ⟨a1, a2⟩ := x
               obtain ⟨b1, b2⟩ := y
